@@ -285,6 +285,7 @@ class ipv6 (packet_base):
     self.tc    = 0
     self.flow  = 0
     self.payload_length = 0
+    self.trailer = b'' # What follows the packet (link-layer padding)
     self.next_header_type = None
     self.hop_limit = 0
     self.srcip = IPAddr6.UNDEFINED
@@ -349,6 +350,7 @@ class ipv6 (packet_base):
       length = len(raw) - offset # Clamp to what we've got
       self.msg('(ipv6) warning IP packet data incomplete (%s of %s)'
                % (len(raw), self.payload_length))
+    self.trailer = raw[offset+length:]
 
     while nht != ipv6.NO_NEXT_HEADER:
       c = _extension_headers.get(nht)
@@ -393,6 +395,10 @@ class ipv6 (packet_base):
       self.extension_headers[-1].next_header_type = eh.TYPE
     else:
       self._next_header_type = eh.TYPE
+
+  def pack (self):
+    # Padding behind the packet belongs to the frame; carry it along
+    return packet_base.pack(self) + self.trailer
 
   def hdr (self, payload):
     vtcfl = self.v << 28
